@@ -300,6 +300,12 @@ def main(argv):
     n_obl = len(theorems)
     n_dis = len([t for t in theorems if t in axioms]) if okl else 0
 
+    if a.tier == 'quick':
+        corr.SHRINK_SECONDS.update(total=240.0, each=90.0, spent=0.0)
+        corr.IMPL_TIMEOUT['s'] = 900
+    else:
+        corr.SHRINK_SECONDS.update(total=1200.0, each=300.0, spent=0.0)
+        corr.IMPL_TIMEOUT['s'] = 3600
     known = load_known(prop.pid)
     known_open = [e for e in known if e.get('status') == 'open']
 
